@@ -144,8 +144,16 @@ def _norm_size(s: str) -> str:
 
 def run(db, res, tier):
   sm = db.sm
-  get_fi = sm.func("support.get_state._get_state")
-  set_fi = sm.func("support.set_state._set_state")
+  # the kernels are found through the launches of the public entry points (not by name), so moving a kernel into a
+  # helper or factory does not lose the anchor
+  def _entry_kernel(entry):
+    ks = {lc.fi.key: lc.fi for lc in db.trace_launch_ctxs(entry)}
+    if len(ks) != 1:
+      raise AnalysisError(f"anchor vanished: {entry} launches {sorted(ks)} (expected exactly one state kernel)")
+    return next(iter(ks.values()))
+
+  get_fi = _entry_kernel("support.get_state")
+  set_fi = _entry_kernel("support.set_state")
   gb, gf = extract_layout(get_fi, "state_out")
   sb, sf = extract_layout(set_fi, "state_in")
   oracle = mujoco_layouts.STATE_ELEMENTS
@@ -212,6 +220,8 @@ def run(db, res, tier):
     # world discipline of the same kernels
     tags = set()
     r_world.check_world_index(res, [lc], tags)
+  for key, par in (("support.get_state", "active"), ("support.set_state", "active")):
+    common.check_mask_normalisation(res, db, key, par)
   # signature validation: raise before launch for sig >= 1 << NSTATE
   for key in ("support.get_state", "support.set_state"):
     hi = HostInterp(sm, shallow=True).run(key)
